@@ -75,7 +75,12 @@ class DecimalConvertor(Convertor[Decimal]):
             raise ValueError("Infinite values are not supported")
         if Decimal("0.0") > value:
             raise ValueError("Negative decimal are not supported")
-        return str(value).rstrip("0").rstrip(".")
+        # Fixed-point text (never "1E-7"); zeros are only insignificant after
+        # the decimal point.
+        text = format(value, "f")
+        if "." in text:
+            text = text.rstrip("0").rstrip(".")
+        return text
 
 
 @mypyc_attr(allow_interpreted_subclasses=True)
